@@ -108,7 +108,15 @@ pub async fn add_node(
     let mut added_service_data = vec![];
     let mut failed_service_data = vec![];
 
-    let current_node_count = node_registry.nodes.len() as u16;
+    // Number new services after the highest number in use, not after the number of entries: when an
+    // earlier `add` installed only some of its services, the two differ and a name would be reused.
+    let current_node_count = node_registry
+        .nodes
+        .iter()
+        .map(|node| node.number)
+        .max()
+        .unwrap_or(0)
+        .max(node_registry.nodes.len() as u16);
     let target_node_count = current_node_count + options.count.unwrap_or(1);
 
     let mut node_number = current_node_count + 1;
